@@ -689,6 +689,56 @@ def run(ctx, part):
                  {"key": key.hex(), "iv": iv2.hex(), "ct": c2.hex(), "pos": pos, "new_plain_byte": newb},
                  lambda k_: aes_dec_judge(k_, kl, key, iv2, c2, exp))
 
+    def aes_hist_case(kind, kl, n):
+        """the result of a call must not depend on the calls made before it (no state carried between calls):
+        short histories of calls with related keys - equal, sharing the first 16 / 24 octets, differing in the last
+        octet only, a shorter key that is a prefix of the next one - in one direction or alternating directions; every
+        call of the history is compared with the model"""
+        base, _ = data(32)
+        iv, _ = data(16)
+        tailflip = lambda k: k[:-1] + bytes([k[-1] ^ (1 << rng.randrange(8))])
+        if kind == "same":
+            keys = [base[:kl]] * 3
+        elif kind == "prefix16":
+            keys = [base[:kl], base[:16] + data(kl - 16)[0], base[:kl]] if kl > 16 else [base[:16], tailflip(base[:16]), base[:16]]
+        elif kind == "prefix24":
+            keys = [base[:kl], base[:24] + data(kl - 24)[0], base[:kl]] if kl > 24 else [base[:kl], tailflip(base[:kl]), base[:kl]]
+        elif kind == "lastbyte":
+            keys = [base[:kl], tailflip(base[:kl]), tailflip(tailflip(base[:kl]))]
+        else:   # "grow": key lengths 16, 24, 32 sharing their prefixes, then back
+            keys = [base[:16], base[:24], base[:32], base[:24], base[:16]]
+        dirs = [rng.choice("ed") for _ in keys] if rng.random() < 0.5 else [rng.choice("ed")] * len(keys)
+        steps = []
+        for key, d_ in zip(keys, dirs):
+            pt, _ = data(n)
+            steps.append((key, d_, pt, mdbc.cbc_pkcs7_encrypt(key, iv, pt)))
+
+        def body(k_):
+            for i, (key, d_, pt, ct) in enumerate(steps):
+                B = Bufs()
+                inp, exp = (pt, ct) if d_ == "e" else (ct, pt)
+                fn = "bc_aes_cbc_enc" if d_ == "e" else "bc_aes_cbc_dec"
+                cap = len(ct)
+                rej, olen, out, res = aes_call(fn, B, cap, cap, 0xA7, B.put(inp), len(inp), B.put(key), len(key), B.put(iv))
+                if ctx.check(not rej, k_ + "|unexpected-error", {"step": i, "fn": fn, "rc": res.i, "caught": res.caught}):
+                    got = R.get(out, min(olen, cap))
+                    ctx.check(olen == len(exp) and got == exp, k_ + "|value",
+                              {"step": i, "fn": fn, "key": key.hex(), "got": got[:48].hex(), "exp": exp[:48].hex(),
+                               "earlier_keys": [s_[0].hex() for s_ in steps[:i]]})
+                B.free()
+        case("bc_aes_cbc|history|%s|k%d|%s" % (kind, kl, "one-direction" if len(set(dirs)) == 1 else "mixed"),
+             {"keys": [s_[0].hex() for s_ in steps], "dirs": "".join(dirs), "iv": iv.hex(), "pt_len": n}, body)
+
+    if R.has("bc_aes_cbc_enc") and R.has("bc_aes_cbc_dec"):
+        for kind in ("same", "prefix16", "prefix24", "lastbyte", "grow"):
+            for kl in (16, 24, 32):
+                for n in (1, 16, 33) + ((0, 15, 17, 47, 48, 100) if not quick else ()):
+                    for rep in range(2 if quick else 6):
+                        if n == 0:
+                            continue
+                        if mine():
+                            aes_hist_case(kind, kl, n)
+
     if R.has("bc_aes_cbc_enc") and R.has("bc_aes_cbc_dec"):
         ptl = list(range(0, 65)) + [79, 80, 81, 255, 256, 1000]
         for kl in (16, 24, 32):
